@@ -136,25 +136,33 @@ def r02_1b(ck, F):
                    f"buffer being non-empty and no permit count bounds the iterations", b.loc(t))
             continue
 
-        def leaf(n, cs):
+        ARITH = {"min", "max", "div_ceil", "next_multiple_of", "saturating_sub", "saturating_add", "wrapping_add", "wrapping_sub",
+                 "checked_add", "checked_sub", "saturating_mul", "unwrap"}
+
+        def leaf(n, cs, other):
             def f(e):
                 if e[0] == "call" and e[1] == "bytes::Bytes::len":
                     return n
                 if mir.last_field(e) == "chunk_size":
                     return cs
+                if e[0] == "call" and e[1].split("::")[-1] not in ARITH:
+                    return other        # any other quantity (queue capacity, ...): the count must not depend on it
+                if e[0] == "path":
+                    return other
                 return None
             return f
         cex = None
         try:
-            for cs in range(1, 13):
-                for n in range(1, 49):
-                    # the split bound is min(len, chunk_size): frames needed = ceil(n / min-bound evaluated with len = n)
-                    bound = term_eval(at, leaf(10 ** 9, cs))
-                    want = -(-n // bound) if bound > 0 else None
-                    got = term_eval(count, leaf(n, cs))
-                    if want is None or got != want:
-                        cex = (n, cs, got, want)
-                        raise StopIteration
+            for other in (1, 3, 1000):
+                for cs in range(1, 13):
+                    for n in range(1, 49):
+                        # the split bound is min(len, chunk_size): frames needed = ceil(n / min-bound evaluated with len = n)
+                        bound = term_eval(at, leaf(10 ** 9, cs, other))
+                        want = -(-n // bound) if bound > 0 else None
+                        got = term_eval(count, leaf(n, cs, other))
+                        if want is None or got != want:
+                            cex = (n, cs, got, want)
+                            raise StopIteration
         except StopIteration:
             pass
         except Unevaluable as ex:
